@@ -10,7 +10,7 @@ CONSTANTS
   Strict = FALSE
   Mut = "none"
   Driver = "iour"
-  MaxSteps = 9
+  MaxSteps = 13
 SPECIFICATION GSpec
 VIEW GView
 INVARIANTS Emit NoErr
